@@ -44,10 +44,10 @@ def setup_worker():
 
 def plan(tier):
     if tier == "quick":
-        return [("base", {"lines": 0}, 12000, 250), ("lines", {"lines": 1}, 4000, 250), ("df", {"df": 1}, 1200, 100),
+        return [("base", {"lines": 0}, 12000, 250), ("lines", {"lines": 1}, 4000, 250), ("df", {"df": 1}, 4000, 100),
                 ("iofault", {"lines": 0, "iofault": 1}, 2500, 250)]
     # thorough adds a 'deep' configuration beyond the bounds of the property text: up to 3 operations per client
-    return [("base", {"lines": 0}, 400000, 1000), ("lines", {"lines": 1}, 150000, 1000), ("df", {"df": 1}, 40000, 250),
+    return [("base", {"lines": 0}, 400000, 1000), ("lines", {"lines": 1}, 150000, 1000), ("df", {"df": 1}, 80000, 250),
             ("deep", {"lines": 1, "deep": 1}, 100000, 500), ("iofault", {"lines": 0, "iofault": 1}, 60000, 500)]
 
 
@@ -368,14 +368,23 @@ def scenario_df(ch, cfg):
     nclients = 2 + ch.draw(2, "nclients")
     plans = []
     nxt = itertools.count(1)
+    # the table may exist already (then the first access is a load from disk)
+    init_rows = [1, 2] if ch.weighted([1, 1], "dfinit") else []
+    if init_rows:
+        from klongpy.db.helpers import serialize_df
+        fs.files[f"{ROOT}/t"] = bytearray(serialize_df(pd.DataFrame({"v": [r * 2 for r in init_rows]}, index=init_rows)))
+    mix = [[3, 1, 1], [1, 1, 1], [2, 1, 2]][ch.draw(3, "dfmix")]   # per-run workload mix (update, get, unload)
     for c in range(nclients):
         ops = []
         for _ in range(1 + ch.draw(2, "nops")):
-            if ch.weighted([3, 1], "dfop") == 0:
+            k = ch.weighted(mix, "dfop")
+            if k == 0:
                 i = next(nxt)
                 ops.append({"kind": "update", "rows": [i * 10, i * 10 + 1], "client": c})
-            else:
+            elif k == 1:
                 ops.append({"kind": "get", "client": c})
+            else:
+                ops.append({"kind": "unload", "client": c})
         plans.append(ops)
     history = []
 
@@ -389,6 +398,9 @@ def scenario_df(ch, cfg):
                     df = pd.DataFrame({"v": [r * 2 for r in op["rows"]]}, index=op["rows"])
                     r = cache.update("t", df)
                     op["result"] = ("ok", sorted(int(x) for x in r.index))
+                elif op["kind"] == "unload":
+                    w.stats["probe_df_unload"] += 1
+                    op["result"] = ("ok", bool(cache.unload_file("t")))
                 else:
                     r = cache.get_dataframe("t")
                     op["result"] = ("ok", sorted(int(x) for x in r.index))
@@ -415,14 +427,16 @@ def scenario_df(ch, cfg):
         if a.done and a.exc is not None:
             raise HarnessError(f"client crashed: {a.exc!r}")
     if not blocked:
-        allrows = sorted(r for op in allops if op["kind"] == "update" for r in op["rows"])
+        allrows = sorted(init_rows + [r for op in allops if op["kind"] == "update" for r in op["rows"]])
         for op in allops:
             if op["result"][0] == "exc":
                 violations.append({"sig": f"C18:df:exc:{op['result'][1]}:{op['kind']}", "msg": op.get("excmsg", "")})
                 continue
+            if op["kind"] == "unload":
+                continue
             got = op["result"][1]
-            must = set()
-            may = set()
+            must = set(init_rows)
+            may = set(init_rows)
             for o in allops:
                 if o["kind"] != "update" or o["result"][0] != "ok":
                     continue
